@@ -2,8 +2,16 @@ package main
 
 import (
 	"fmt"
+	"os"
+	"os/exec"
+	"path/filepath"
+	"regexp"
+	"runtime"
 	"strconv"
 	"strings"
+	"sync"
+	"sync/atomic"
+	"time"
 
 	"github.com/pion/webrtc/v4"
 )
@@ -12,15 +20,44 @@ import (
 //
 //	agg <closed> <ice> <dtls>               → <pc>
 //	seq <prev> (<closed> <ice> <dtls>)*     → <final> <n> <notified…>
+//	live <variant> <n>                      → observed A <closed> <ice> <dtls> <conn> <k> <notified…> | B …
+//
+// agg/seq drive updateConnectionState on a bare PeerConnection (hook). live ops exercise the CALL SITES
+// (ICE state handler, startTransports after the DTLS start, close()): two real PeerConnections over loopback
+// are taken through a scenario and, once both have settled, each side's closed flag, ICE connection state,
+// DTLS transport state, ConnectionState() and the values its OnConnectionStateChange handler received are
+// printed. Which states a live pair settles in is not predictable, so these are judge-only lines.
 func init() {
 	registry["C22"] = &Prop{
-		Workers:    8,
+		Workers:    16,
+		Timeout:    60 * time.Second,
 		Exhaustive: false,
-		Rule: "agg: every raw (closed, ice 0..8, dtls 0..6) tuple, enumerated completely; " +
+		Rule: "live: every scenario of c22Variants (connect; corrupted answer / offer / both fingerprints; Close of one or " +
+			"both sides after connecting, while connecting, before any transport started; an offer that is never answered; an " +
+			"answer that never arrives; loss of the peer until ICE is disconnected / failed; a peer closed by the library on " +
+			"the other side's DTLS close_notify; a connect in which the ICE handler's update is held between computing the " +
+			"aggregate and taking the lock until DTLS is connected [child process, yield hook]) on a real loopback pair with a data " +
+			"channel, a media section or both (n mod 3); quick: each scenario once, thorough: each scenario with each of the " +
+			"three section layouts four times. Judge-only (the settled states are observed, not predicted). " +
+			"agg: every raw (closed, ice 0..8, dtls 0..6) tuple, enumerated completely; " +
 			"seq: every length-2 sequence over the named (closed,ice,dtls) triples from every named initial state " +
 			"(thorough) or a seeded sample of them (quick) plus seeded random sequences of length 3..24. " +
 			"Non-trivial: distinct op lines; a seq is trivial when it notifies nothing.",
 		Gen: func(c *Ctx) {
+			// live ops first: they take seconds each and overlap with the (fast) table ops
+			if c.Thorough() {
+				for rep := 0; rep < 4; rep++ {
+					for _, v := range c22Variants {
+						for m := 0; m < 3; m++ {
+							c.Emit("live %s %d", v, 3*rep+m)
+						}
+					}
+				}
+			} else {
+				for _, v := range c22Variants {
+					c.Emit("live %s %d", v, c.Rng.Intn(300))
+				}
+			}
 			for cl := 0; cl < 2; cl++ {
 				for ice := 0; ice <= 8; ice++ {
 					for dtls := 0; dtls <= 6; dtls++ {
@@ -75,6 +112,17 @@ func init() {
 			}
 		},
 		Exec: func(a []string) string {
+			if len(a) > 0 && a[0] == "live" {
+				if len(a) != 3 {
+					return "bad-op"
+				}
+				n, err := strconv.Atoi(a[2])
+				if err != nil || n < 0 {
+					return "bad-op"
+				}
+
+				return c22Live(a[1], n)
+			}
 			n := make([]int, len(a)-1)
 			for i := range n {
 				v, err := strconv.Atoi(a[i+1])
@@ -117,6 +165,9 @@ func init() {
 			if a[0] == "agg" {
 				return "agg→" + out
 			}
+			if a[0] == "live" {
+				return c22LiveClass(a, out)
+			}
 			f := strings.Fields(out)
 			if len(f) >= 2 {
 				return "seq notified=" + f[1]
@@ -126,6 +177,9 @@ func init() {
 		},
 		Trivial: func(a []string, out string) bool {
 			f := strings.Fields(out)
+			if a[0] == "live" { // a live pair where neither side ever left "new" exercised no call site
+				return !strings.HasPrefix(out, "observed ") || c22LiveClass(a, out) == "live "+a[1]+" A=1 B=1"
+			}
 
 			return a[0] == "seq" && len(f) >= 2 && f[1] == "0"
 		},
@@ -136,4 +190,397 @@ func lastTriple(s string) string {
 	f := strings.Fields(s)
 
 	return strings.Join(f[len(f)-3:], " ")
+}
+
+// c22Variants are the live scenarios (see c22Live).
+var c22Variants = []string{
+	"ok", "badans", "badoff", "badboth", "closeA", "closeB", "closeAB", "earlyA", "midA", "earlyB",
+	"noanswer", "halfanswer", "closenew", "lossB", "faillossB", "peercloseA", "staleice",
+}
+
+var c22FingerprintRE = regexp.MustCompile(`a=fingerprint:sha-256 [0-9A-Fa-f:]+`)
+
+func c22Corrupt(sdp string) string {
+	return c22FingerprintRE.ReplaceAllString(sdp, "a=fingerprint:sha-256 "+strings.TrimSuffix(strings.Repeat("AA:", 32), ":"))
+}
+
+// c22Side is one end of a live pair with what the harness knows about it.
+type c22Side struct {
+	pc     *webrtc.PeerConnection
+	mu     sync.Mutex
+	notes  []webrtc.PeerConnectionState
+	closed bool // pc.Close() has returned
+	// byPeer: the library may close this side itself (DTLS close_notify from the peer); its closed flag is then
+	// read off SignalingState() == closed, which close() sets right after the flag
+	byPeer bool
+}
+
+func (s *c22Side) close() {
+	_ = s.pc.Close()
+	s.mu.Lock()
+	s.closed = true
+	s.mu.Unlock()
+}
+
+// snap reads conn, ice, dtls, conn (in this order) and the handler record; ok is false when the two conn
+// reads differ (a change was in flight).
+func (s *c22Side) snap() (string, bool) {
+	s.mu.Lock()
+	closed := s.closed
+	s.mu.Unlock()
+	if s.byPeer && s.pc.SignalingState() == webrtc.SignalingStateClosed {
+		closed = true
+	}
+	c1 := s.pc.ConnectionState()
+	ice := s.pc.ICEConnectionState()
+	dtls := s.pc.SCTP().Transport().State()
+	c2 := s.pc.ConnectionState()
+	s.mu.Lock()
+	defer s.mu.Unlock()
+	sb := strings.Builder{}
+	fmt.Fprintf(&sb, "%s %d %d %d %d", b2s(closed), int(ice), int(dtls), int(c2), len(s.notes))
+	for _, n := range s.notes {
+		fmt.Fprintf(&sb, " %d", int(n))
+	}
+
+	return sb.String(), c1 == c2
+}
+
+func c22LiveClass(a []string, out string) string {
+	if !strings.HasPrefix(out, "observed ") {
+		return "live " + a[1] + " " + strings.Fields(out + " ?")[0]
+	}
+	parts := strings.Split(strings.TrimPrefix(out, "observed "), " | ")
+	lab := "live " + a[1]
+	for _, p := range parts {
+		f := strings.Fields(p)
+		if len(f) >= 5 {
+			lab += " " + f[0] + "=" + f[4]
+		}
+	}
+
+	return lab
+}
+
+// c22Live takes a loopback pair through one scenario and reports both sides once they have settled.
+// n mod 3 selects what is negotiated: 0 a data channel, 1 a media section, 2 both.
+// Everything before the final snapshots only steers the pair towards an interesting state; the verdict is the
+// Lean judge's, on the snapshot alone.
+func c22Live(variant string, n int) string {
+	known := false
+	for _, v := range c22Variants {
+		known = known || v == variant
+	}
+	if !known {
+		return "bad-op"
+	}
+	if variant == "staleice" && os.Getenv("WVH_C22_STALL") == "" {
+		return c22InChild(variant, n)
+	}
+	se := loopbackSettings()
+	// the sides do not close each other: the closed flag is what the harness did (except in peercloseA)
+	se.DisableCloseByDTLS(variant != "peercloseA")
+	if variant == "lossB" || variant == "faillossB" {
+		se.SetICETimeouts(1500*time.Millisecond, 3*time.Second, 400*time.Millisecond)
+	}
+	newAPI := func() (*webrtc.API, error) {
+		me := &webrtc.MediaEngine{}
+		if err := me.RegisterDefaultCodecs(); err != nil {
+			return nil, err
+		}
+
+		return webrtc.NewAPI(webrtc.WithSettingEngine(se), webrtc.WithMediaEngine(me)), nil
+	}
+	apiA, err := newAPI()
+	if err != nil {
+		return "inconclusive api"
+	}
+	apiB, err := newAPI()
+	if err != nil {
+		return "inconclusive api"
+	}
+	pair, err := NewPair(apiA, apiB)
+	if err != nil {
+		return "inconclusive newpair"
+	}
+	defer pair.Close()
+	sa, sb := &c22Side{pc: pair.A}, &c22Side{pc: pair.B, byPeer: variant == "peercloseA"}
+	for _, s := range []*c22Side{sa, sb} {
+		s := s
+		s.pc.OnConnectionStateChange(func(st webrtc.PeerConnectionState) {
+			s.mu.Lock()
+			s.notes = append(s.notes, st)
+			s.mu.Unlock()
+		})
+	}
+	if variant == "staleice" {
+		// A's ICE handler is held between computing the aggregate for "ICE connected" and taking pc.mu (the
+		// verifYield point ucs.computed) until both DTLS transports are connected: its snapshot of the DTLS state
+		// is then older than the one startTransports' update has already stored a state for.
+		var armed atomic.Value
+		armed.Store("")
+		pair.A.OnICEConnectionStateChange(func(st webrtc.ICEConnectionState) {
+			if st == webrtc.ICEConnectionStateConnected {
+				armed.Store(c22Goid()) // the update follows on this goroutine
+			}
+		})
+		webrtc.VerifSetYield(func(label string) {
+			if label != "ucs.computed" || armed.Load() != c22Goid() {
+				return
+			}
+			armed.Store("")
+			until := time.Now().Add(6 * time.Second)
+			for time.Now().Before(until) {
+				if pair.A.SCTP().Transport().State() == webrtc.DTLSTransportStateConnected &&
+					pair.B.SCTP().Transport().State() == webrtc.DTLSTransportStateConnected {
+					break
+				}
+				time.Sleep(time.Millisecond)
+			}
+			time.Sleep(150 * time.Millisecond) // let startTransports' own update go first
+		})
+		defer webrtc.VerifSetYield(nil)
+	}
+	if n%3 != 1 {
+		if _, err = pair.A.CreateDataChannel("c22", nil); err != nil {
+			return "inconclusive datachannel"
+		}
+	}
+	if n%3 != 0 {
+		if _, err = pair.A.AddTransceiverFromKind(webrtc.RTPCodecTypeVideo); err != nil {
+			return "inconclusive transceiver"
+		}
+	}
+
+	// signaling, step by step, so that scenarios can stop or tamper in between
+	gather := func(pc *webrtc.PeerConnection, d webrtc.SessionDescription) (webrtc.SessionDescription, bool) {
+		g := webrtc.GatheringCompletePromise(pc)
+		if err := pc.SetLocalDescription(d); err != nil {
+			return d, false
+		}
+		select {
+		case <-g:
+		case <-time.After(10 * time.Second):
+			return d, false
+		}
+
+		return *pc.LocalDescription(), true
+	}
+	offer, err := pair.A.CreateOffer(nil)
+	if err != nil {
+		return "inconclusive createoffer"
+	}
+	offer, ok := gather(pair.A, offer)
+	if !ok {
+		return "inconclusive offer-gathering"
+	}
+	until := func(d time.Duration, cond func() bool) bool {
+		deadline := time.Now().Add(d)
+		for time.Now().Before(deadline) {
+			if cond() {
+				return true
+			}
+			time.Sleep(10 * time.Millisecond)
+		}
+
+		return false
+	}
+	dtlsOver := func(s *c22Side) func() bool {
+		return func() bool {
+			st := s.pc.SCTP().Transport().State()
+
+			return st == webrtc.DTLSTransportStateFailed || st == webrtc.DTLSTransportStateClosed
+		}
+	}
+	answerStep := func() (webrtc.SessionDescription, string) {
+		o := offer
+		if variant == "badoff" || variant == "badboth" {
+			o.SDP = c22Corrupt(o.SDP)
+		}
+		if err := pair.B.SetRemoteDescription(o); err != nil {
+			return o, "inconclusive srd-offer"
+		}
+		ans, err := pair.B.CreateAnswer(nil)
+		if err != nil {
+			return o, "inconclusive createanswer"
+		}
+		ans, ok := gather(pair.B, ans)
+		if !ok {
+			return o, "inconclusive answer-gathering"
+		}
+		if variant == "badans" || variant == "badboth" {
+			ans.SDP = c22Corrupt(ans.SDP)
+		}
+
+		return ans, ""
+	}
+
+	switch variant {
+	case "closenew": // nothing was ever started: close() is the only call site that runs
+		sa.close()
+		sb.close()
+	case "noanswer": // B applies the offer and never answers: no transport starts
+		if err := pair.B.SetRemoteDescription(offer); err != nil {
+			return "inconclusive srd-offer"
+		}
+	default:
+		ans, why := answerStep()
+		if why != "" {
+			return why
+		}
+		switch variant {
+		case "halfanswer": // B has started its transports, A never hears of it
+		case "earlyB": // B closes while it is checking; A then starts against a closed peer
+			sb.close()
+			if err := pair.A.SetRemoteDescription(ans); err != nil {
+				return "inconclusive srd-answer"
+			}
+		case "midA": // A is closed from its ICE handler's goroutine on "checking" (n even) / "connected" (n odd):
+			// Close races the ICE handler's own update and the DTLS start
+			trigger := webrtc.ICEConnectionStateChecking
+			if n%2 == 1 {
+				trigger = webrtc.ICEConnectionStateConnected
+			}
+			done := make(chan struct{})
+			var once sync.Once
+			pair.A.OnICEConnectionStateChange(func(st webrtc.ICEConnectionState) {
+				if st == trigger {
+					once.Do(func() {
+						go func() {
+							sa.close()
+							close(done)
+						}()
+					})
+				}
+			})
+			if err := pair.A.SetRemoteDescription(ans); err != nil {
+				return "inconclusive srd-answer"
+			}
+			select {
+			case <-done:
+			case <-time.After(8 * time.Second):
+				once.Do(func() {
+					sa.close()
+					close(done)
+				})
+				<-done
+			}
+		case "earlyA": // A closes right after SetRemoteDescription returned (its transports may not have started)
+			if err := pair.A.SetRemoteDescription(ans); err != nil {
+				return "inconclusive srd-answer"
+			}
+			sa.close()
+		default:
+			if err := pair.A.SetRemoteDescription(ans); err != nil {
+				return "inconclusive srd-answer"
+			}
+			switch variant {
+			case "staleice":
+				until(12*time.Second, func() bool {
+					return pair.A.SCTP().Transport().State() == webrtc.DTLSTransportStateConnected &&
+						pair.B.SCTP().Transport().State() == webrtc.DTLSTransportStateConnected
+				})
+				time.Sleep(400 * time.Millisecond) // the held update runs 150 ms after that
+			case "badans":
+				until(12*time.Second, dtlsOver(sa))
+			case "badoff":
+				until(12*time.Second, dtlsOver(sb))
+			case "badboth":
+				until(12*time.Second, func() bool { return dtlsOver(sa)() && dtlsOver(sb)() })
+			default:
+				pair.WaitConnected(12 * time.Second)
+				c22Settle(sa, sb, 3*time.Second) // let the handlers of the connect phase run before going on
+				switch variant {
+				case "closeA":
+					sa.close()
+				case "closeB":
+					sb.close()
+				case "closeAB":
+					sa.close()
+					sb.close()
+				case "peercloseA": // B is closed by the library on A's DTLS close_notify
+					sa.close()
+					until(6*time.Second, func() bool { return pair.B.SignalingState() == webrtc.SignalingStateClosed })
+				case "lossB":
+					sb.close()
+					until(8*time.Second, func() bool {
+						return pair.A.ICEConnectionState() == webrtc.ICEConnectionStateDisconnected
+					})
+				case "faillossB":
+					sb.close()
+					until(12*time.Second, func() bool {
+						return pair.A.ICEConnectionState() == webrtc.ICEConnectionStateFailed
+					})
+				}
+			}
+		}
+	}
+	out, ok := c22Settle(sa, sb, 20*time.Second)
+	if !ok {
+		return "inconclusive not-settled " + out
+	}
+
+	return "observed " + out
+}
+
+func c22Goid() string {
+	b := make([]byte, 64)
+	f := strings.Fields(string(b[:runtime.Stack(b, false)]))
+	if len(f) < 2 {
+		return "?"
+	}
+
+	return f[1]
+}
+
+// c22InChild runs one live op in a child process (the yield callback it installs is process-global and must
+// not touch the pairs of the ops running next to it).
+func c22InChild(variant string, n int) string {
+	self, err := os.Executable()
+	if err != nil {
+		return "inconclusive child"
+	}
+	dir, err := os.MkdirTemp("", "wvh-c22-")
+	if err != nil {
+		return "inconclusive child"
+	}
+	defer os.RemoveAll(dir)
+	opf := filepath.Join(dir, "op.ops")
+	if err = os.WriteFile(opf, []byte(fmt.Sprintf("C22 live %s %d\n", variant, n)), 0o600); err != nil {
+		return "inconclusive child"
+	}
+	cmd := exec.Command(self, "C22", "-replay", opf, "-out", dir)
+	cmd.Env = append(os.Environ(), "WVH_C22_STALL=1", "WVH_CHILD=1")
+	if err = cmd.Run(); err != nil {
+		return "inconclusive child"
+	}
+	data, err := os.ReadFile(filepath.Join(dir, "impl.txt"))
+	if err != nil {
+		return "inconclusive child"
+	}
+
+	return strings.TrimSpace(strings.Split(string(data), "\n")[0])
+}
+
+// c22Settle waits until two snapshots of both sides taken 200 ms apart are identical (and each was read
+// with equal ConnectionState() before and after the transport states).
+func c22Settle(sa, sb *c22Side, d time.Duration) (string, bool) {
+	deadline := time.Now().Add(d)
+	prev := ""
+	for {
+		a, oka := sa.snap()
+		b, okb := sb.snap()
+		cur := "A " + a + " | B " + b
+		if oka && okb && cur == prev {
+			return cur, true
+		}
+		if !oka || !okb {
+			cur = ""
+		}
+		prev = cur
+		if time.Now().After(deadline) {
+			return strings.ReplaceAll(cur, " ", "_"), false
+		}
+		time.Sleep(200 * time.Millisecond)
+	}
 }
